@@ -644,7 +644,7 @@ func genPay(r *rand.Rand) *payIn {
 			if big {
 				// beyond the exact domain of the float64 product (but far from the int64 range of the
 				// result): only closeness to the exact sum is judged there
-				a.V = r.Int63n(1 << 40)
+				a.V = r.Int63n(1 << 36)
 				if r.Intn(2) == 0 {
 					a.V = -a.V
 				}
@@ -1505,6 +1505,11 @@ func judgePay(c *core.Ctx, t tcase, o goOut, resp []string, key string) {
 			c.TieBroken("drive:C20/payment-spec", fmt.Sprintf("Lean spec total %s vs Go spec total %s", spec, want), t)
 			return
 		}
+		if !inDomain && specMagnitude.BitLen() >= 60 {
+			// converted figures near or beyond the int64 range: overflow, outside every domain
+			c.Count("pay:skipped-int64-range", 1)
+			return
+		}
 		// line totals add up to the total
 		sum := big.NewInt(0)
 		for i := range p.Lines {
@@ -1527,7 +1532,7 @@ func judgePay(c *core.Ctx, t tcase, o goOut, resp []string, key string) {
 			// ... but a product through float64 is still within a few units of the last place of a
 			// 53-bit significand of the exact one: while every figure stays far below 2^62 the total is
 			// close to the exact sum (a wrapped or truncated product is not)
-			if specMagnitude.BitLen() < 62 {
+			if specMagnitude.BitLen() < 60 {
 				var gv, wv int64
 				var ge, we uint32
 				if n1, _ := fmt.Sscanf(goTotal, "%d:%d", &gv, &ge); n1 == 2 {
